@@ -529,6 +529,8 @@ pub fn run_c02(o: &Opts) -> Report {
             }
             if in_dom {
                 let known = if dom.k5(term_of(&x)) { Some("K5") } else { None };
+                // the known class is the failure of the theorems' hypothesis unamb_top (decided by the model)
+                cx.push(format!("LUnambC {} {} {}", fm.idx, clnarsese(&x), cbool(known.is_some())), format!("K5 = not unamb_top[{}] {:?}", fm.name, x));
                 let good = matches!(&r, Ok(Some(w)) if *w == x);
                 if !good {
                     cx.fail(
